@@ -202,10 +202,8 @@ class UnionFind(object):
         """
         if x not in self:
             raise ValueError('{} is not an element'.format(x))
-        elts = np.array(self._elts)
-        vfind = np.vectorize(self.find)
-        roots = vfind(elts)
-        return set(elts[roots == self.find(x)])
+        root = self.find(x)
+        return set(e for e in self._elts if self.find(e) == root)
 
     def roots(self) -> set:
         """Return the set of roots of components
@@ -271,14 +269,11 @@ class UnionFind(object):
             dict: A dict with the semantics: `elt -> component contianing elt`.
 
         """
-        elts = np.array(self._elts)
-        vfind = np.vectorize(self.find)
-        roots = vfind(elts)
-        distinct_roots = set(roots)
+        by_root = {}
+        for e in self._elts:
+            by_root.setdefault(self.find(e), set()).add(e)
         comps = {}
-        for root in distinct_roots:
-            mask = (roots == root)
-            comp = set(elts[mask])
+        for comp in by_root.values():
             comps.update({x: comp for x in comp})
             # Change ^this^, if you want a different behaviour:
             # If you don't want to share the same set to different keys:
